@@ -384,6 +384,33 @@ func classifySite(info *types.Info, stack []ast.Node, id *ast.Ident) (remergeSit
 		if len(x.Rhs) != 1 || x.Rhs[0] != ast.Expr(call) {
 			return subexprSite(stack, call)
 		}
+		// `if x, err := H(..); err != nil { handler }` (no else) standing in a statement list: the same as the two
+		// statements in a block of their own
+		if i >= 2 && x.Tok == token.DEFINE {
+			if ifs, isIf := stack[i-1].(*ast.IfStmt); isIf && ifs.Init == ast.Stmt(x) && ifs.Else == nil {
+				var list []ast.Stmt
+				switch par := stack[i-2].(type) {
+				case *ast.BlockStmt:
+					list = par.List
+				case *ast.CaseClause:
+					list = par.Body
+				case *ast.CommClause:
+					list = par.Body
+				}
+				for _, st := range list {
+					if st == ast.Stmt(ifs) {
+						site.kind, site.stmt = "ifinit", ifs
+						for j := i - 2; j >= 0; j-- {
+							switch stack[j].(type) {
+							case *ast.FuncDecl, *ast.FuncLit:
+								site.enclosing = stack[j]
+								return site, ""
+							}
+						}
+					}
+				}
+			}
+		}
 		switch x.Tok {
 		case token.ASSIGN:
 			site.kind = "assign"
@@ -761,6 +788,17 @@ func inlineText(u *Universe, info *types.Info, h *ast.FuncDecl, hSrc []byte, s r
 		sb.WriteString(body)
 		sb.WriteString("\n}")
 		return sb.String(), ""
+	}
+	if s.kind == "ifinit" {
+		ifs := s.stmt.(*ast.IfStmt)
+		plain := *ifs
+		plain.Init = nil
+		s2 := s
+		s2.kind, s2.stmt, s2.next = "define", ifs.Init, &plain
+		if txt, ok := errorHelperText(u, info, h, hSrc, s2, sSrc, binds, sig); ok {
+			return "{\n" + txt + "}", ""
+		}
+		return "", "helper called in the header of an if and not of the error-helper shape"
 	}
 	// ---- `x, err := H(..)` followed by `if err != nil { handler }`: a helper whose early returns are all error exits
 	if txt, ok := errorHelperText(u, info, h, hSrc, s, sSrc, binds, sig); ok {
